@@ -435,6 +435,10 @@ impl<'a> Exec<'a> {
         match p {
             Pick::Tok(t) => Some(*t),
             Pick::Eos => Some(eos),
+            Pick::EosAlt(r) => {
+                let all = self.ctx.world.eos_all();
+                Some(all[(*r % all.len() as u64) as usize])
+            }
             Pick::OutOfRange(x) => Some(nv + (*x % 1000)),
             Pick::Outside(r) => {
                 let m = mask?;
@@ -455,7 +459,7 @@ impl<'a> Exec<'a> {
             }
             Pick::MaskNoEos(r) => {
                 let l = set_bits(mask?);
-                let l2: Vec<u32> = l.iter().copied().filter(|t| *t != eos).collect();
+                let l2: Vec<u32> = l.iter().copied().filter(|t| !self.ctx.world.is_eos(*t)).collect();
                 let l = if l2.is_empty() { l } else { l2 };
                 if l.is_empty() {
                     None
@@ -465,7 +469,7 @@ impl<'a> Exec<'a> {
             }
             Pick::Longest(r) => {
                 let l = set_bits(mask?);
-                let l: Vec<u32> = l.into_iter().filter(|t| *t != eos).collect();
+                let l: Vec<u32> = l.into_iter().filter(|t| !self.ctx.world.is_eos(*t)).collect();
                 if l.is_empty() {
                     return None;
                 }
@@ -484,7 +488,7 @@ impl<'a> Exec<'a> {
             }
             Pick::High(r) => {
                 let l = set_bits(mask?);
-                let l: Vec<u32> = l.into_iter().filter(|t| *t != eos).collect();
+                let l: Vec<u32> = l.into_iter().filter(|t| !self.ctx.world.is_eos(*t)).collect();
                 if l.is_empty() {
                     return None;
                 }
@@ -970,7 +974,10 @@ impl<'a> Exec<'a> {
                 if stopped {
                     // after a stop: asking for a mask is an error or yields only EOS
                     let bits = set_bits(&m);
-                    if !(bits.len() == 1 && bits[0] == eos) {
+                    let mut want = self.ctx.world.eos_all();
+                    want.sort();
+                    let _ = eos;
+                    if bits != want {
                         return Err(self.viol(
                             "mask_after_stop",
                             "mask_after_stop",
@@ -1129,7 +1136,7 @@ impl<'a> Exec<'a> {
     /// Resolve a list of picks into concrete tokens by walking a scratch deep clone.
     fn resolve_sequence(&mut self, h: SlotId, picks: &[Pick]) -> VResult<Vec<TokenId>> {
         if picks.len() == 1 {
-            let mask = if matches!(picks[0], Pick::Tok(_) | Pick::Eos | Pick::OutOfRange(_)) {
+            let mask = if matches!(picks[0], Pick::Tok(_) | Pick::Eos | Pick::EosAlt(_) | Pick::OutOfRange(_)) {
                 None
             } else {
                 self.current_mask(h)?
@@ -1299,8 +1306,11 @@ impl<'a> Exec<'a> {
                 if multi {
                     self.stats.probe("multibyte_token_committed");
                 }
-                if toks[..n].contains(&eos) {
+                if toks[..n].iter().any(|t| self.ctx.world.is_eos(*t)) {
                     self.stats.probe("eos_committed");
+                    if toks[..n].iter().any(|t| self.ctx.world.is_eos(*t) && *t != eos) {
+                        self.stats.probe("secondary_eos_committed");
+                    }
                 }
                 for t in &toks[..n] {
                     let b = self.ctx.tok_bytes(*t);
@@ -1319,7 +1329,14 @@ impl<'a> Exec<'a> {
                 // reports dead transitions, which surface as "byte fails parse")
                 // Tight limits (fault-injecting class): fuel left over from the previous mask can run
                 // out inside a commit; the message is the same "byte fails parse".
-                let tight = !self.fault_free() && !self.ctx.sc.world.limits.is_default();
+                // (only the lexer budgets matter here: Earley item budgets apply to mask / forced-byte
+                // computations, never to a commit)
+                let dl = LimitsSpec::default();
+                let l = &self.ctx.sc.world.limits;
+                let tight = !self.fault_free()
+                    && (l.step_lexer_fuel != dl.step_lexer_fuel
+                        || l.max_lexer_states != dl.max_lexer_states
+                        || l.initial_lexer_fuel != dl.initial_lexer_fuel);
                 if tight && honest && !failed && !stopped {
                     self.stats.probe("commit_failed_under_tight_limits");
                 }
@@ -1397,8 +1414,8 @@ impl<'a> Exec<'a> {
         let n = s.hist.len();
         // honest rollbacks (k <= 100) are clamped to the history; larger k are abusive on purpose
         let k = if k <= 100 { k.min(n) } else { k };
-        let eos = self.ctx.world.eos();
-        let over_eos = k > 0 && k <= n && s.hist[n - k..].contains(&eos);
+        let eos_all = self.ctx.world.eos_all();
+        let over_eos = k > 0 && k <= n && s.hist[n - k..].iter().any(|t| eos_all.contains(t));
         let m = match &mut s.h {
             H::M(m) => m,
             _ => return Ok(()),
